@@ -60,4 +60,11 @@ PROPS = {
                     "the real regbot binary, a loopback HTTP server backed by memreg, directory snapshots"],
         "assumptions": COMMON_ASSUME + ["image.exportTar writes the tar file the script names; that is neither a registry nor an OCI layout and is not counted as a mutation"],
     },
+    "C05": {
+        "props": "Props/C05.v", "corr": ["Corr/C05.v"],
+        "trusted": ["model of scheme/reg blobPutUploadChunked (Model/C05_Upload.v) incl. the slice-capacity shrink on re-slice; the registry session is the transition system written there (in-order PATCH appends, out-of-order PATCH answers 416 + Range; the closing PUT verifies the digest of what the session holds)",
+                    "memreg + scripted hooks standing for a conforming registry; BlobPut's mount / single-request phase is exercised on the implementation only"],
+        "assumptions": COMMON_ASSUME + ["`success for every blob size and chunking against a conforming registry` (termination of the loop with Done) is NOT yet a Coq theorem (C05_conforming_succeeds, partial): it is decided per run by the oracle conforming-upload-failed over boundary lengths and scripts",
+                    "a registry that stores the complete body of a single-request PUT and still reports failure makes the chunked fall-back abort (chunkStart != bufStart); treated as non-conforming, see DESIGN.md"],
+    },
 }
